@@ -75,6 +75,9 @@ class Contract:
     display: tuple = ()                       # names of display-only locals (statements writing only these are dropped)
     locals: dict = field(default_factory=dict)        # local name -> type string where inference needs help
     abstract: bool = False                    # contract of an abstract method (no body to verify)
+    cand_locals: tuple = ()                   # locals that candidates may mention besides __done__/__ret__
+    ghost_yield: dict = field(default_factory=dict)
+    rely_ensures: list = field(default_factory=list)
     note: str = ''
 
     def sha(self):
@@ -98,6 +101,7 @@ class Registry:
         self.exc_parents: dict[str, str] = {}     # exception kind -> parent kind
         self.transparent_cms: set = set()         # context managers treated as transparent
         self.class_of_sort: dict[str, str] = {}
+        self.deffuncs: dict[str, dict] = {}
         self.aliases: dict[tuple, str] = {}       # (sort or class name, method) -> contract key
         self.globals: dict[str, str] = {}         # module-level mutable globals: name -> type
         self.named_tuples: dict[str, list] = {}   # str(tuple type) -> field names
@@ -111,6 +115,11 @@ class Registry:
 
     def func(self, name, args, res):
         self.funcs[name] = (list(args), res)
+
+    def deffunc(self, name, params, res, body, lemmas=()):
+        """A *defined* spec function: inlined in finite scope; in unbounded mode an uninterpreted symbol with its
+        definitional axiom plus `lemmas` (each proved from the definition alone before it is used)."""
+        self.deffuncs[name] = dict(params=dict(params), res=res, body=body, lemmas=[C(l) for l in lemmas])
 
     def macro(self, name, params, expr):
         self.macros[name] = (list(params), expr)
